@@ -189,6 +189,36 @@ class Ctx:
                 raise MachineryError("TLC failed on %s (rc=%s):\n%s" % (name, rc, r.trace_text()))
         return r
 
+    # ------------------------------------------------------------ Apalache (inductive invariants, unbounded constants)
+    def apalache(self, module_path, args, *, name=None, timeout=900, sed=None):
+        """Run `apalache-mc check <args> <module>`; returns "ok", "violated" or raises MachineryError.
+        sed: optional (old, new) text replacement applied to a private copy of the module (negative controls)."""
+        src = module_path if os.path.isabs(module_path) else os.path.join(SPEC, module_path)
+        mod = os.path.basename(src)
+        rd = os.path.join(self.work, "apa-%s-%d" % (name or mod, len(self.tlc_runs)))
+        os.makedirs(rd)
+        text = open(src).read()
+        if sed:
+            if sed[0] not in text:
+                raise MachineryError("negative control: pattern not found in " + mod)
+            text = text.replace(sed[0], sed[1])
+        with open(os.path.join(rd, mod), "w") as f:
+            f.write(text)
+        t = time.time()
+        e = dict(os.environ)
+        e.pop("JAVA_TOOL_OPTIONS", None)
+        try:
+            p = subprocess.run(["apalache-mc", "check"] + list(args) + ["--out-dir=" + os.path.join(rd, "out"), mod], cwd=rd, env=e,
+                               capture_output=True, text=True, timeout=timeout)
+        except subprocess.TimeoutExpired:
+            raise MachineryError("apalache timeout on %s" % mod)
+        out = p.stdout + p.stderr
+        verdict = "ok" if "EXITCODE: OK" in out else ("violated" if "EXITCODE: ERROR (12)" in out or "Found a violation" in out or "violat" in out.lower() and "EXITCODE: ERROR" in out else None)
+        self.tlc_runs.append({"name": "apalache:" + (name or mod), "args": " ".join(args), "verdict": verdict, "wall_s": round(time.time() - t, 2)})
+        if verdict is None:
+            raise MachineryError("apalache failed on %s:\n%s" % (mod, out[-1500:]))
+        return verdict
+
     # ------------------------------------------------------------ verdicts
     def sample(self, s, cap=6):
         if len(self.samples) < cap:
